@@ -112,6 +112,26 @@ def parseSRes (c : SCall) (s : String) : Option SRes :=
 
 def handle (op : String) (args : List String) (impl : String) : Option Verdict :=
   match op, args with
+  | "race", [sts, kb, ka] => some <| Id.run do
+    let some sts := (chars sts).mapM statusOf | return bad
+    let some kb := natList kb | return bad
+    let some ka := natList ka | return bad
+    let n := sts.length
+    let m := ((List.range n).zip sts).reverse
+    -- the code as it is: B holds propMutex while parked, so B's delivery comes first
+    let r := raceOrder m kb ka true
+    let model := showRes r.1 ++ "|" ++ showRes r.2.1 ++ "|" ++ snapshot r.2.2 n ++ "|held"
+    let parseSel := fun (s : String) =>
+      if s == "e" then some (HRes.selected none)
+      else if s.startsWith "s:" then (natList (s.drop 2).toString).map fun ks => HRes.selected (some ks) else none
+    let ok := match impl.splitOn "|" with
+      | [sb, sa, fin, _] =>
+        match parseSel sb, parseSel sa, (chars fin).mapM statusOf with
+        | some sb, some sa, some fs => fs.length == n && decide (PRace m kb ka sb sa ((List.range n).zip fs) n)
+        | _, _, _ => false
+      | _ => false
+    let shared := kb.any fun k => ka.contains k && (lookup m k == Status.missing || lookup m k == Status.failed)
+    return ⟨model, ok, s!"race:n={min n 4}:sharedExecutable={shared}"⟩
   | "overlap", [a, b, init] => some <| Id.run do
     let some ca := parseSCall a | return bad
     let some cb := parseSCall b | return bad
